@@ -40,7 +40,7 @@ CHECKS = {
                 technique="TLC model checking of the VM model on real programs + trace validation of API records and VM traces"),
     "C06": dict(level="exploration", ref="6 C06",
                 text="Contract.tla gives the compile contract (Ok or Err, error position <= length, time budget) and the input model: every sequence of up to N "
-                     "fragments of a 97-fragment vocabulary (exported by TLC), an amplification family opener^k body closer^k (k up to 100000), random longer "
+                     "fragments of a 100-fragment vocabulary (exported by TLC), an amplification family opener^k body closer^k (k up to 100000), random longer "
                      "sequences and mutations of valid spellings; each input is compiled in a resource-limited child process from a debug build (overflow checks on), "
                      "a dead child being the outcome of the input it was processing; TLC checks the contract on every recorded outcome. The parser stage has an exact "
                      "oracle: Parse.tla (function-by-function mirror of parse.rs; MC_Parse model-checks 'error position <= length' and tree well-formedness for ALL "
